@@ -190,10 +190,41 @@ Proof.
     repeat split; unfold is_digit, is_ws, is_name_start, is_lower in *; lia.
 Qed.
 
+(* keyword tables decided inside a constant piece of text *)
+Fixpoint kw_dec (tab : list (Z * list Z)) (c : list Z) : option (Z * list Z) :=
+  match tab with
+  | [] => None
+  | (v, s) :: r =>
+      match s with
+      | [] => None
+      | _ => match prefix s (skipws c) with
+             | Some x => Some (v, x)
+             | None => if mism s (skipws c) then kw_dec r c else None
+             end
+      end
+  end.
+Lemma p_kw_const tab : forall c v r l, kw_dec tab c = Some (v, r) -> p_kw tab (c ++ l) = Some (v, r ++ l).
+Proof.
+  induction tab as [|[v0 s] tab IH]; intros c v r l H; [discriminate|].
+  cbn [kw_dec] in H. cbn [p_kw]. destruct s as [|a s]; [discriminate|].
+  destruct (prefix (a :: s) (skipws c)) as [x|] eqn:E.
+  - inversion H; subst. rewrite (tok_const (a :: s) c r l); [reflexivity | discriminate | exact E].
+  - destruct (mism (a :: s) (skipws c)) eqn:M; [|discriminate].
+    rewrite (tok_none (a :: s) c l M). now apply IH.
+Qed.
+
 (* ---------- separated lists ---------- *)
 Lemma sep_list_cons {A} (f : A -> list Z) sep x y r :
   sep_list f sep (x :: y :: r) = f x ++ sep ++ sep_list f sep (y :: r).
 Proof. reflexivity. Qed.
+
+Lemma sep_list_len {A} (f : A -> list Z) (s : list Z) : (forall x, f x <> []) ->
+  forall xs, (length xs <= length (sep_list f s xs))%nat.
+Proof.
+  intros Hfne. induction xs as [|x xs IH]; [simpl; lia|]. destruct xs as [|y r].
+  - simpl. specialize (Hfne x). destruct (f x); [congruence | simpl; lia].
+  - rewrite sep_list_cons, !app_length. specialize (Hfne x). destruct (f x); [congruence|]. simpl in *. lia.
+Qed.
 
 Section SepList.
 Context {A B : Type} (p : parser B) (f : A -> list Z) (g : A -> B) (sep pad : list Z) (ok : list Z -> Prop).
@@ -229,12 +260,6 @@ Proof.
 Qed.
 
 Hypothesis Hfne : forall x, f x <> [].
-Lemma sep_list_len xs : (length xs <= length (sep_list f (sep ++ pad) xs))%nat.
-Proof.
-  induction xs as [|x xs IH]; [simpl; lia|]. destruct xs as [|y r].
-  - simpl. specialize (Hfne x). destruct (f x); [congruence | simpl; lia].
-  - rewrite sep_list_cons, !app_length. specialize (Hfne x). destruct (f x); [congruence|]. simpl in *. lia.
-Qed.
 
 Lemma p_list1_spec xs rest : xs <> [] ->
   (forall x, In x xs -> forall l, ok l -> p (f x ++ l) = Some (g x, l)) ->
@@ -242,7 +267,7 @@ Lemma p_list1_spec xs rest : xs <> [] ->
   p_list1 p sep (sep_list f (sep ++ pad) xs ++ rest) = Some (map g xs, rest).
 Proof.
   intros Hne Hp Hok Hend. unfold p_list1. apply p_sep1_spec; try assumption.
-  rewrite app_length. pose proof (sep_list_len xs). lia.
+  rewrite app_length. pose proof (sep_list_len f (sep ++ pad) Hfne xs). lia.
 Qed.
 
 Lemma p_list0_spec close xs rest :
